@@ -241,8 +241,8 @@ func memGen(c *Ctx) {
 				default:
 					a = 0xff00 + rng.Intn(0x100)
 				}
-				if a == 0xff46 || (a == 0xff40 && mode != "poweron") {
-					continue
+				if (a == 0xff46 && i%4 != 0) || (a == 0xff40 && mode != "poweron") {
+					continue // a DMA makes OAM unreadable for a while: only in every fourth scenario
 				}
 				pool = append(pool, a)
 				// make sure mirrors meet
@@ -253,6 +253,9 @@ func memGen(c *Ctx) {
 			var ops []memOp
 			for j := 0; j < 220; j++ {
 				a := pool[rng.Intn(len(pool))]
+				if i%4 == 0 && rng.Intn(40) == 0 {
+					ops = append(ops, memOp{"tick", 1 + rng.Intn(200), 0})
+				}
 				if rng.Intn(2) == 0 {
 					v := rng.Intn(256)
 					if a == 0xff44 && v < 154 {
